@@ -128,7 +128,11 @@ def rand_grid(rng, maxn=10):
         sp = float(rng.uniform(0.05, 0.3))
     else:
         sp = (float(rng.uniform(0.05, 0.3)), float(rng.uniform(0.05, 0.3)))
-    return detector_grid((nx, ny), sp)
+    det = detector_grid((nx, ny), sp)
+    if rng.random() < 0.4:
+        # a cropped detector keeps its coordinates: the grid need not start at the origin, nor at equal x and y
+        det = det.assign_coords(x=det.x + float(rng.uniform(-3, 3)), y=det.y + float(rng.uniform(-3, 3)))
+    return det
 
 
 def rand_points(rng, n=None, z=None):
